@@ -175,10 +175,10 @@ class BaseFormOperator(Operator, BaseForm, Counted):
     def __repr__(self):
         """Default repr string construction for base form operators."""
         r = f"{type(self).__name__}("
-        r += ", ".join(repr(op) for op in self.ufl_operands)
-        r += "; {self.ufl_function_space()!r}; "
-        r += ", ".join(repr(arg) for arg in self.argument_slots())
-        r += f"; derivatives={self.derivatives!r})"
+        r += "".join(repr(op) + ", " for op in self.ufl_operands)
+        r += f"function_space={self.ufl_function_space()!r}, "
+        r += f"derivatives={self.derivatives!r}, "
+        r += "argument_slots=(" + "".join(repr(arg) + ", " for arg in self.argument_slots()) + "))"
         return r
 
     def __hash__(self):
